@@ -371,10 +371,40 @@ def consider_line():
     )
 
 
+def line_monitor_next_line():
+    cfl = {k: dict(v) for k, v in CF.items()}
+    cfl["LineMonitor"]["_last_line_stats"] = "val"
+    return Contract(
+        target=f"{LM}::LineMonitor.next_line",
+        types={"last_line": "list[str]", "data": "list[str]"},
+        requires=["(self._physical_line_count is None) == (self._physical_line_number is None)",
+                  "(self._physical_line_count is None) == (self._data_line_count is None)",
+                  "(self._physical_line_count is None) == (self._data_line_number is None)",
+                  "implies(self._physical_line_count is not None, self._physical_line_count == self._physical_line_number + 1 and self._physical_line_number >= 0 "
+                  "and self._data_line_count is not None and self._data_line_number is not None and self._data_line_count >= -1)"],
+        modifies=["self._physical_line_count", "self._physical_line_number", "self._data_line_count", "self._data_line_number", "self._last_line_stats"],
+        ensures={
+            "physical_number_counts_records_from_zero": "self._physical_line_number == (0 if old(self._physical_line_number) is None else old(self._physical_line_number) + 1)",
+            "physical_count_is_number_plus_one": "self._physical_line_count == self._physical_line_number + 1",
+            "data_count_moves_only_for_nonblank_records": "implies(len(data) == 0 and old(self._data_line_count) is not None, "
+                                                          "same(self._data_line_count, old(self._data_line_count)) and same(self._data_line_number, old(self._data_line_number)))",
+            "data_count_is_one_based_count_of_nonblank_records": "implies(len(data) > 0, self._data_line_count == "
+                                                                 "(1 if (old(self._data_line_count) is None or old(self._data_line_count) == -1) else old(self._data_line_count) + 1) "
+                                                                 "and self._data_line_number == self._physical_line_number)",
+        },
+        covers={"first_blank_then_data": "old(self._data_line_count) == -1 and self._data_line_count == 1"},
+        opaque_new=["LastLineStats"], class_fields=cfl, macros=MACROS, returns="none",
+        native={"defaults": {}},
+        property_clauses={"physical_number_counts_records_from_zero": "C02,C03", "physical_count_is_number_plus_one": "C03",
+                          "data_count_moves_only_for_nonblank_records": "C03,C02", "data_count_is_one_based_count_of_nonblank_records": "C03"},
+        doc={"physical_number_counts_records_from_zero": "C02: 'line numbers are 0-based positions of CSV records'; C03: line_number() reports the 0-based position",
+             "data_count_is_one_based_count_of_nonblank_records": "C03: count_lines() reports the 1-based position among data lines"})
+
+
 def contracts():
     from . import C02
-    c02 = [c for c in C02.contracts() if c.ident in ("Scanner.includes", "Scanner.is_last")]
+    c02 = [c for c in C02.scanner_contracts() if c.ident in ("Scanner.includes", "Scanner.is_last")]
     for c in c02:
         c._foreign = True
-    return ([matcher_matches(), csvpath_next(), consider_line(), raise_match_count_if()] + interface_contracts() + next_interfaces()
+    return ([matcher_matches(), csvpath_next(), consider_line(), raise_match_count_if(), line_monitor_next_line()] + interface_contracts() + next_interfaces()
             + consider_line_interfaces() + c02)
